@@ -95,6 +95,34 @@ class Facts:
         for (q, v2) in self.other:
             if (q == p and v2 != val) or (q == ONE - p and v2 == val):
                 return False
+        # a small boolean combination: atoms that have one value in every satisfying assignment are decided
+        ats = sorted(p.atoms(), key=repr)
+        if 2 <= len(ats) <= 6 and all(is_bool_atom(x) for x in ats):
+            sat = []
+            for combo in itertools.product((0, 1), repeat=len(ats)):
+                asg = dict(zip(ats, combo))
+                # variants of one enum symbol exclude each other
+                seen = {}
+                bad = False
+                for a_, v_ in asg.items():
+                    if a_[0] == "var" and v_:
+                        if a_[1] in seen:
+                            bad = True
+                        seen[a_[1]] = 1
+                if bad:
+                    continue
+                if p.subst(asg).const_value() == val:
+                    sat.append(combo)
+            if not sat:
+                return False
+            forced = [(ats[i], sat[0][i]) for i in range(len(ats)) if all(c[i] == sat[0][i] for c in sat)]
+            if forced:
+                if len(sat) > 1:
+                    self.other.append((p, val))
+                for a_, v_ in forced:
+                    if not self._set_atom(a_, v_):
+                        return False
+                return True
         self.other.append((p, val))
         return True
 
